@@ -686,6 +686,10 @@ func (encryptor *QueryDataEncryptor) encryptValuesWithPlaceholders(ctx context.C
 func (encryptor *QueryDataEncryptor) encryptWithColumnSettings(ctx context.Context, columnSetting config.ColumnEncryptionSetting, data []byte) ([]byte, error) {
 	logger := logrus.WithFields(logrus.Fields{"column": columnSetting.ColumnName()})
 	logger.Debugln("QueryDataEncryptor.encryptWithColumnSettings")
+	if encryptor.encryptor == nil {
+		// created without data encryptor, only to match columns of a query to their settings
+		return data, ErrUpdateLeaveDataUnchanged
+	}
 	accessContext := decryptor.AccessContextFromContext(ctx)
 	clientID := columnSetting.ClientID()
 	if len(clientID) > 0 {
